@@ -276,6 +276,83 @@ def greenback_cases(bridges):
                 bad.append("greenback d=%d %s: error %r" % (d, where, st.error))
             if [str(x.message)[:80] for x in wl if issubclass(x.category, stackscope.InspectionWarning)]:
                 bad.append("greenback d=%d %s: InspectionWarning" % (d, where))
+    n2, bad2 = greenback_asyncio_cases(bridges)
+    return n + n2, bad + bad2
+
+
+def greenback_asyncio_cases(bridges):
+    """the same bridges under asyncio, where a task is resumed by a VALUE or by an EXCEPTION thrown into it (cancellation):
+    the bridge frame greenback leaves on each greenlet stack is outcome.Value.send or outcome.Error.send accordingly"""
+    import asyncio
+    import greenback
+    bad, n = [], 0
+    for d, want in enumerate(bridges):
+        for thrown in (False, True):
+            results = []
+
+            async def a_level(k, thrown=thrown):
+                if k > 0:
+                    return s_level(k)
+                if thrown:
+                    # cancelled while waiting; the clean-up goes through synchronous code that waits once more: the
+                    # frame that resumed THIS coroutine (outcome.Error.send, made by the bridge above) stays on the stack
+                    fut = asyncio.get_running_loop().create_future()
+                    asyncio.get_running_loop().call_soon(asyncio.current_task().cancel)
+                    try:
+                        await fut
+                    except asyncio.CancelledError:
+                        pass
+                    return s_extra()
+                return await final()
+
+            def s_extra():
+                return greenback.await_(final())
+
+            async def final():
+                fut = asyncio.get_running_loop().create_future()
+                task = asyncio.current_task()
+
+                def report():
+                    try:
+                        results.append(stackscope.extract(task.get_coro()))
+                    finally:
+                        fut.set_result(None)
+                asyncio.get_running_loop().call_soon(report)
+                await fut
+
+            def s_level(k):
+                return greenback.await_(a_level(k - 1))
+
+            async def main():
+                await greenback.ensure_portal()
+                await a_level(d)
+            with warnings.catch_warnings(record=True) as wl:
+                warnings.simplefilter("always")
+                try:
+                    asyncio.run(main())
+                except BaseException as ex:
+                    bad.append("harness: asyncio scenario d=%d thrown=%s raised %r" % (d, thrown, ex))
+                    continue
+            n += 1
+            label = "greenback under asyncio d=%d, last resumed by %s" % (d, "an exception" if thrown else "a value")
+            if len(results) != 1:
+                bad.append("harness: %s: %d results" % (label, len(results)))
+                continue
+            st = results[0]
+            visible = [(("a" if f.funcname == "a_level" else "s"), f.pyframe.f_locals.get("k")) for f in st.frames
+                       if f.funcname in ("a_level", "s_level")]
+            if [list(x) for x in visible] != [list(x) for x in want]:
+                bad.append("%s: bridge frames %s expected %s" % (label, visible, want))
+            shown = [f.funcname for f in st.frames if not f.hide and ((f.modname or "").startswith("outcome") or (
+                (f.modname or "").startswith("greenback") and f.funcname in ("await_", "_greenback_shim", "trampoline")))]
+            if shown:
+                bad.append("%s: bridging internals not hidden: %s" % (label, shown))
+            if thrown and d > 0 and not any(type(f.pyframe.f_locals.get("self")).__name__ == "Error" for f in st.frames if f.funcname == "send"):
+                bad.append("harness: %s: no Error.send frame on the stack" % label)
+            if st.error is not None:
+                bad.append("%s: error %r" % (label, st.error))
+            if [x for x in wl if issubclass(x.category, stackscope.InspectionWarning)]:
+                bad.append("%s: InspectionWarning" % label)
     return n, bad
 
 
